@@ -245,8 +245,10 @@ class MCCase(DCase):
         # recompute the oracle block
         make, goals = build(self.id.split("/", 1)[1])
         from jxs.harness import Orc, close
-        co, x, V = af
+        co, x, V, w = af
         Jo = jac_oracle({k: np.asarray(v, dtype=float) for k, v in co.items()}, np.asarray(x, dtype=float), False)
+        if self.id.endswith("/kw"):
+            Jo = Jo * (1.0 + float(np.asarray(w)))
         if op == "trace":
             want = np.einsum("manb,ab->mn", Jo, np.eye(d))
         else:
